@@ -30,6 +30,8 @@ theorem inv_step (e : Env) (hn : e.order.Nodup) (s : State) (op : Op) (h : Inv e
   | identify dof => exact h
   | projection refs => exact h
   | numDofs => exact h
+  | updateNumDofs => exact updateNumDofs_inv e e rfl rfl s h
+  | mdVariable name domains => exact h
 
 theorem inv_run (e : Env) (hn : e.order.Nodup) (ops : List Op) (s : State) (h : Inv e s) :
     Inv e (run e s ops) := by
@@ -87,6 +89,8 @@ theorem clustered_step (e : Env) (s : State) (op : Op) (hk : GridsKnown e op) (h
   | identify dof => exact h
   | projection refs => exact h
   | numDofs => exact h
+  | updateNumDofs => exact h
+  | mdVariable name domains => exact h
 
 theorem clustered_run (e : Env) (ops : List Op) (hk : ∀ op ∈ ops, GridsKnown e op) (s : State)
     (h : Clustered e s) : Clustered e (run e s ops) := by
@@ -202,6 +206,8 @@ theorem keys_unique_step (e : Env) (s : State) (op : Op) (hg : GridsNodup op) (h
   | identify dof => exact h
   | projection refs => exact h
   | numDofs => exact h
+  | updateNumDofs => exact h
+  | mdVariable name domains => exact h
 
 /-- After any history whose `create` calls do not repeat a grid, no two registered variables share
     name and domain, i.e. every variable has its own storage. -/
@@ -431,6 +437,91 @@ theorem remove_multi_eq_sequential (e : Env) (hn : e.order.Nodup) (s : State) (h
   · intro hnil
     exact (removeLoop_spec e hn ids s hI hnd hreg (Or.inr hnil)).2.2.1
 
+/-! ### neighbouring entry points and calls that succeed -/
+
+/-- `update_variable_num_dofs` after the grids changed their entity counts (same md-grid listing):
+    the layout invariant holds for the NEW grid, i.e. every block again has its variable's dof count
+    and all statements above (partition, lookup, projection, values) apply to the resized system. -/
+theorem update_num_dofs_inv (e e' : Env) (hs : e'.subs = e.subs) (hi : e'.intfs = e.intfs) (s : State)
+    (h : Inv e s) : Inv e' (step e' s .updateNumDofs).1 ∧ (step e' s .updateNumDofs).2 = .ok .unit :=
+  ⟨updateNumDofs_inv e e' hs hi s h, rfl⟩
+
+/-- No assumption on the history: whenever a `create_variables` call returns (does not raise), or a
+    `remove_variables` call on a non-empty list returns, the layout is in cluster order afterwards —
+    so the order clause holds after every successful call, also after earlier half-failed ones. -/
+theorem success_implies_clustered (e : Env) (s : State) :
+    (∀ name dof subs intfs out, (step e s (.create name dof subs intfs)).2 = .ok out →
+      Clustered e (step e s (.create name dof subs intfs)).1) ∧
+    (∀ refs, parse s refs ≠ [] → (step e s (.remove refs)).2 = .ok .unit →
+      Clustered e (step e s (.remove refs)).1) := by
+  constructor
+  · intro name dof subs intfs out h
+    show Clustered e (create e s name dof subs intfs).1
+    cases hc : (create e s name dof subs intfs).2 with
+    | error err =>
+      have : (step e s (.create name dof subs intfs)).2 = .error err := by
+        show ((create e s name dof subs intfs).2).map Out.ids = _
+        rw [hc]; rfl
+      rw [this] at h; cases h
+    | ok ids => exact create_ok_clustered e s name dof subs intfs ids hc
+  · intro refs hne h
+    show Clustered e (removeLoop e s (parse s refs)).1
+    cases hp : parse s refs with
+    | nil => exact absurd hp hne
+    | cons i r =>
+      apply removeLoop_ok_clustered
+      cases hr : (removeLoop e s (i :: r)).2 with
+      | ok u => rfl
+      | error err =>
+        have : (step e s (.remove refs)).2 = .error err := by
+          show ((removeLoop e s (parse s refs)).2).map (fun _ => Out.unit) = _
+          rw [hp, hr]; rfl
+        rw [this] at h; cases h
+
+theorem parse_of_vars_eq (s s' : State) (h : s'.vars = s.vars) (refs : Option (List Ref)) :
+    parse s' refs = parse s refs := by
+  have hr : parseRef s' = parseRef s := by
+    funext r
+    cases r with
+    | name n => show (s'.vars.filter _).map _ = (s.vars.filter _).map _; rw [h]
+    | var i => rfl
+  cases refs with
+  | none => show s'.vars.map _ = s.vars.map _; rw [h]
+  | some rs => show rs.flatMap (parseRef s') = rs.flatMap (parseRef s); rw [hr]
+
+/-- The round trip through the public entry points: `set_variable_values(values, refs, …)` followed
+    by `get_variable_values(refs', …)` for ANY argument `refs'` denoting the same variables (names,
+    Variables, md-variables, in any order) at one of the written slots returns `values`. -/
+theorem set_then_get_op (e : Env) (s : State) (hI : Inv e s) (hK : KeysUnique s)
+    (refs refs' : Option (List Ref)) (hsame : ∀ i, i ∈ parse s refs ↔ i ∈ parse s refs')
+    (values : List Rat) (iter ts iter' ts' : Option Int) (sl : List (Bool × Nat)) (slot : Bool × Nat)
+    (hv : validateSet iter ts = .ok sl) (hg : validateGet iter' ts' = .ok slot) (hslot : slot ∈ sl)
+    (hlen : values.length = selectedSize s (parse s refs)) :
+    outputs e s [.setVals values refs iter ts false, .getVals refs' iter' ts'] =
+      [.ok .unit, .ok (.rats values)] := by
+  obtain ⟨r1, r2⟩ := set_get_roundtrip e s hI hK (parse s refs) values sl (validateSet_nodup iter ts sl hv).1
+    slot hslot hlen
+  have hparse : parse (setValsIds s values (parse s refs) (.ok sl) false).1 refs' = parse s refs' := by
+    apply parse_of_vars_eq
+    unfold setValsIds; split <;> rfl
+  simp only [outputs, step, hv, hg, r1, hparse]
+  rw [← (get_order_irrelevant _ (parse s refs) (parse s refs') hsame (.ok slot) [] (.ok []) false).1, r2]
+  rfl
+
+/-- `md_variable(name)` wraps exactly the registered variables of that name, in creation order — the
+    same variables the string `name` denotes in every VariableList argument — and raises IndexError
+    when there is none; with `domains` it is the sub-list on those domains. -/
+theorem md_variable_spec (s : State) (name : Nat) :
+    (∀ ids, mdVariable s name none = .ok ids → ids = parse s (some [.name name]) ∧ ids ≠ []) ∧
+    (parse s (some [.name name]) = [] → mdVariable s name none = .error .index) ∧
+    (∀ ds, mdVariable s name (some ds) =
+      .ok ((s.vars.filter (fun v => v.name == name && ds.contains v.grid)).map (·.id))) := by
+  refine ⟨fun ids h => mdVariable_none_ok s name ids h, ?_, fun ds => rfl⟩
+  intro h
+  have : s.vars.filter (fun v => v.name == name) = [] := by
+    simpa [parse, parseRef] using h
+  simp [mdVariable, this]
+
 /-! ### non-vacuity: a concrete md-grid and history -/
 
 /-- md-grid with a 2-d subdomain (key 2), a 1-d subdomain (key 0) and an interface (key 1) -/
@@ -509,6 +600,27 @@ example : outputs exEnv (run exEnv init exOps)
      .getVals (some [.name 9]) none none, .setVals [] (some [.var 4]) none none false,
      .setVals [1] (some [.name 9]) none (some (-2)) true]
     = [.error .value, .error .value, .error .value, .ok (.rats []), .error .value, .error .assertion] := by
+  decide +kernel
+
+/-- the 1-d grid (key 0) refined from 3 to 5 cells -/
+def exEnv' : Env :=
+  { exEnv with cells := fun g => if g = 0 then 5 else exEnv.cells g,
+               faces := fun g => if g = 0 then 6 else exEnv.faces g,
+               nodes := fun g => if g = 0 then 6 else exEnv.nodes g }
+
+/-- sizes follow the refined grid, and the invariant holds for the new grid -/
+example : (step exEnv' (run exEnv init exOps) .updateNumDofs).1.sizes = [9, 0, 6, 4] ∧
+    Inv exEnv' (step exEnv' (run exEnv init exOps) .updateNumDofs).1 :=
+  ⟨by decide +kernel,
+   (update_num_dofs_inv exEnv exEnv' rfl rfl _ (inv_reachable exEnv (by decide) exOps)).1⟩
+
+/-- md_variable: name 0 lives on both subdomains; name 7 nowhere; round trip through two spellings -/
+example : outputs exEnv (run exEnv init exOps)
+    [.mdVariable 0 none, .mdVariable 7 none, .mdVariable 0 (some [0]),
+     .setVals [1, 2, 3, 4, 5, 6, 7, 8, 9, 10, 11, 12, 13] (some [.var 4, .var 1]) (some 1) (some 0) false,
+     .getVals (some [.name 0]) none (some 0)]
+    = [.ok (.ids [1, 4]), .error .index, .ok (.ids [4]), .ok .unit,
+       .ok (.rats [1, 2, 3, 4, 5, 6, 7, 8, 9, 10, 11, 12, 13])] := by
   decide +kernel
 
 end PorepyVerif.C05
